@@ -12,6 +12,8 @@ from typing import Any, Dict, List, Tuple
 
 from .core import Report, mix32
 from . import c03_core as K
+from . import c03_gen as GN
+from . import gen_state as S
 
 IMEM = 0x100000
 PC = 0x02000
@@ -49,6 +51,35 @@ def temp_junk(regs: Dict[str, int], h: int) -> bool:
     return True
 
 
+def place_and_prior(case: Dict[str, Any], code: bytes, h: int) -> Dict[str, Any]:
+    """Two dimensions of the random exploration, here as pure functions of the case hash: where the instruction sits
+    (1/16 of the cases: a byte offset 1..len-1 of the encoding -- len 1: the byte behind it -- is the first byte of a
+    new 64 KiB page) and what the emulator object did before (1/8 of the cases: c03_gen.draw_prior, never 'nothing')."""
+    h2 = mix32(h, 0x9A6E)
+    if h2 % 16 == 0:
+        k = 1 + (h2 >> 8) % max(1, len(code) - 1)
+        pc = ((1 + (h2 >> 12) % 15) << 16) - k
+        old = case["regs"]["PC"]
+        case["mem"] = [m for m in case["mem"] if not old <= m[0] < old + len(code) + 8]
+        case["mem"] += [[pc + i, byte] for i, byte in enumerate(code + bytes(8))]
+        case["regs"]["PC"] = pc
+    if (h2 >> 4) % 8 == 0:
+        prior, _ = GN.draw_prior(S.Stream(h, 0x9810), GN.opcodes(), case["regs"]["PC"], force=True)
+        if prior is not None:
+            case["prior"] = prior
+    return case
+
+
+def dim_labels(case: Dict[str, Any], length: int) -> List[str]:
+    pc = case["regs"]["PC"]
+    lab = ["temps:junk" if K.has_temp_junk(case) else "temps:clear"]
+    lab.append("page:straddles" if (pc & 0xFFFF) + max(1, length) > 0x10000 else
+               "page:ends-at-boundary" if (pc & 0xFFFF) + max(1, length) == 0x10000 else "page:inside")
+    p = case.get("prior")
+    lab.append(f"prior:{p['kind']}/{p['via']}" if p else "prior:none")
+    return lab
+
+
 def build_case(form: str, opcode: int, a: int, b: int, cin: int, salt: int) -> Dict[str, Any]:
     """Fully expanded case dict for one operand triple; the untouched state (other registers, F bits 2..7, memory
     fill seed) varies with the triple so that the frame condition is exercised too."""
@@ -81,7 +112,7 @@ def build_case(form: str, opcode: int, a: int, b: int, cin: int, salt: int) -> D
         mem.append([PC + i, byte])
     mem += [[IMEM + 0xEC, 0], [IMEM + 0xED, 0x11], [IMEM + 0xEE, 0x22]]
     temp_junk(regs, h)
-    return {"regs": regs, "power": "running", "seed": h, "mem": mem, "steps": 1}
+    return place_and_prior({"regs": regs, "power": "running", "seed": h, "mem": mem, "steps": 1}, code, h)
 
 
 def enum_shard(task: Tuple[int, int, int, int]) -> Report:
@@ -106,7 +137,7 @@ def enum_shard(task: Tuple[int, int, int, int]) -> Report:
                             continue
                     case = build_case(form, opcode, a, b, cin, seed)
                     j = K.judge(case)
-                    lab = [f"enum:{name} {form.split(':')[1]}", "temps:junk" if K.has_temp_junk(case) else "temps:clear"]
+                    lab = [f"enum:{name} {form.split(':')[1]}"] + dim_labels(case, j.length)
                     if j.status == "skip":
                         lab.append("skip:" + j.reason)
                     elif j.status != "ok":
@@ -159,7 +190,7 @@ def grid_cases(seed: int) -> List[Tuple[str, Dict[str, Any]]]:
         mem = [[PC + i, byte] for i, byte in enumerate(code + bytes(8))]
         mem += [[IMEM + 0xEC, 0], [IMEM + 0xED, 0x11], [IMEM + 0xEE, 0x22]]
         temp_junk(regs, h)
-        return {"regs": regs, "power": "running", "seed": h, "mem": mem, "steps": 1}
+        return place_and_prior({"regs": regs, "power": "running", "seed": h, "mem": mem, "steps": 1}, code, h)
 
     # ADD/SUB register pairs documented in the README rows
     pairs: List[Tuple[int, str, str]] = []
@@ -261,7 +292,7 @@ def grid_shard(task: Tuple[int, int, int]) -> Report:
         if i % nshards != shard:
             continue
         j = K.judge(case)
-        lab = [label, "temps:junk" if K.has_temp_junk(case) else "temps:clear"]
+        lab = [label] + dim_labels(case, j.length)
         if j.status == "skip":
             lab.append("skip:" + j.reason)
         elif j.status != "ok":
